@@ -54,6 +54,6 @@ def gen_cases(rng, tier, count=None):
 
 def run_case(case):
     m = ZoomMon()
-    ctx = drive(case, [m])
+    ctx = drive(case, [m], own=PROP)
     return result_of(ctx, [m], prefix=PROP,
                      nontrivial=lambda ctx, res: ctx.round >= 50 and res["obs"].get("refinements_seen", 0) >= 2)
